@@ -980,6 +980,46 @@ func hoistLevel(lts []ltLevel, ctLevel int) int {
 	return levelQ
 }
 
+// PARAMSTORE control: the requested threshold is clamped by the number of other parties
+type quorum struct {
+	threshold int
+	others    []uint64
+}
+
+func newQuorum(threshold int, others []uint64) *quorum {
+	q := &quorum{others: others}
+	q.threshold = min(threshold, len(others))
+	return q
+}
+
+// NEGBOUND control: without auxiliary modulus the digit loop runs zero times
+func digitsOf(levelQ, levelP int, acc []uint64) {
+	if levelP > -1 {
+		acc[0]++
+	} else {
+		acc[0] = 0
+	}
+	for k := 0; k < levelP+1; k++ {
+		if k > levelQ {
+			break
+		}
+		acc[k]++
+	}
+}
+
+// COPYUSE control: the sub-evaluator of the copy is wired to the original's evaluator
+type subEval struct{ base *innerEval }
+
+type wiredEval struct {
+	inner *innerEval
+	sub   *subEval
+}
+
+func (e wiredEval) ShallowCopy() *wiredEval {
+	in := e.inner.ShallowCopy()
+	return &wiredEval{inner: in, sub: &subEval{base: e.inner}}
+}
+
 // INDEG control: the first two components of the input, whatever its degree
 func (e fixEvaluator) SumTwo(ctIn, opOut *rlwe.Ciphertext) {
 	e.r.Add(ctIn.Value[0], ctIn.Value[1], opOut.Value[0])
